@@ -162,6 +162,15 @@ func checkBatch(rec *stats.Recorder, c batchCase) (msg string, known string) {
 	if isComplexKey(kt) {
 		labels = append(labels, "complex_key")
 	}
+	if c.Reply == "superset" && c.Extra != nil && kt.Ref != nil && kt.Ref.Name == "TString" {
+		h := dyn.Hash(dyn.Build(S, kt, c.Extra, dyn.BuildOpts{}))
+		for _, k := range keys {
+			if dyn.Hash(dyn.Build(S, kt, k, dyn.BuildOpts{})) == h && !aval.Equal(k, c.Extra) {
+				labels = append(labels, "unrequested_key_collides_with_requested")
+				break
+			}
+		}
+	}
 	rec.Case(labels...)
 	if len(keys) >= 2 {
 		rec.NonTrivial(c.Reply, hx.J(c.Call)+c.Reply+hx.J(c.NewPars)+hx.J(c.Dropped), func() any { return c })
@@ -404,6 +413,19 @@ func TestC16Batch(t *testing.T) {
 			c.Call.PathKeys = append(c.Call.PathKeys, genKey(rt, g, kt))
 		}
 		keys := genKeyMultiset(rt, g, mi)
+		// an unrequested key in the reply whose hash collides with a requested key that is alone in its bucket
+		var collidingExtra *aval.V
+		if kt := *mi.KeyType; kt.Ref != nil && kt.Ref.Name == "TString" && len(fnvCollisions()) > 0 && rapid.IntRange(0, 2).Draw(rt, "extra_collides") == 0 {
+			pair := fnvCollisions()[rapid.IntRange(0, len(fnvCollisions())-1).Draw(rt, "extra_coll")]
+			var kept []*aval.V
+			for _, k := range keys {
+				if k.S != aval.Str(pair[0]).S && k.S != aval.Str(pair[1]).S {
+					kept = append(kept, k)
+				}
+			}
+			keys = append(kept, aval.Str(pair[0]))
+			collidingExtra = aval.Str(pair[1])
+		}
 		switch mi.Rest() {
 		case "batch_get", "batch_delete":
 			c.Call.Keys = keys
@@ -431,11 +453,17 @@ func TestC16Batch(t *testing.T) {
 			c.Call.Params = g.Value(rt, mi.ParamsType(), 1)
 		}
 		c.Reply = rapid.SampledFrom([]string{"exact", "subset", "params-changed", "superset"}).Draw(rt, "reply")
+		if collidingExtra != nil {
+			c.Reply = "superset"
+		}
 		switch c.Reply {
 		case "subset":
 			c.Dropped = rapid.SliceOfN(rapid.IntRange(0, 10), 1, 2).Draw(rt, "dropped")
 		case "superset":
 			c.Extra = genKey(rt, g, *mi.KeyType)
+			if collidingExtra != nil {
+				c.Extra = collidingExtra
+			}
 		case "params-changed":
 			if isComplexKey(*mi.KeyType) {
 				n := S.Lookup(*mi.KeyType.Ref)
